@@ -1,15 +1,53 @@
 /-
   Property C03 — signcryption round trip for box-key and symmetric-key
-  recipients.  Statements only; proofs in Saltpack/Proofs/RoundTripSig.lean.
+  recipients.  Statements only; proofs in Saltpack/Proofs/RoundTripSig.lean,
+  RingSig.lean, RingRT.lean.
+
+  Keyrings: the `_ring` theorems are about ANY keyring `faithfulKeyring P sks`
+  (any number of box secret keys in any order) that MAY be accompanied by a
+  symmetric-key resolver; the theorems without `_ring` (ring = exactly the
+  recipient's key / empty ring) are their corollaries.
 -/
 import Saltpack.Proofs.RoundTripSig
 import Saltpack.Proofs.WireRT
+import Saltpack.Proofs.RingRT
 import Saltpack.Toy
 
 namespace Saltpack.Props.C03
 open Saltpack Saltpack.Encrypt
 
-/-- **Box-key recipient at any position** opens to exactly the plaintext and the
+/-- **Box-key recipient, any keyring that holds its key, with or without a
+    resolver.**  The ring `sks` holds the box secret key `sk` of the recipient at
+    position `i` somewhere among other keys (foreign ones, or those of other
+    recipients); `res` is any resolver or none (it is not consulted: box keys are
+    tried first).  The message opens to exactly the plaintext and the sender's
+    signing public key (none for an anonymous sender).
+    `ScRingNoCollision` (`hnc`): up to position `i`, a ring key's derived
+    identifier equals a header identifier only for the entry made for that very
+    key — `tryBoxSecretKeys` tries every ring key against every entry, stops at
+    the first identifier match and fails hard if that box does not open
+    (explicit, satisfiable hypothesis: identifiers are 32 bytes of HMAC output). -/
+theorem C03_roundtrip_box_ring (P : Prims) (hP : P.Lawful) (bs : Nat) (hbs : 0 < bs)
+    (sender : Option Bytes) (rs : List Signcrypt.Recipient) (eph payloadKey pt : Bytes)
+    (hpk : payloadKey.length = 32)
+    (hsender : ∀ s, sender = some s → ¬ ((P.sigPub s).all (· == 0)))
+    (hblocks : (chunkPlan v2 bs pt).length < 2 ^ 64 - 1)
+    (sks : List Bytes) (res : Signcrypt.Resolver)
+    (i : Nat) (hi : i < rs.length) (sk : Bytes) (hmem : sk ∈ sks) (hsk : rs.getD i default = .box (P.boxPub sk))
+    (h : EncHeader) (hb : Bytes) (blks : List SigncryptBlock)
+    (hseal : Signcrypt.sealPackets P bs sender rs eph payloadKey pt = .ok (h, hb, blks))
+    (hnc : ∀ s ∈ sks, ∀ j, j ≤ i → j < rs.length →
+      Signcrypt.keyIdentifier P (Signcrypt.derivedKeyFromBoxKeys P (P.boxPub eph) s) j =
+        Decrypt.kidOf (h.receivers.getD j default) →
+      rs.getD j default = .box (P.boxPub s)) :
+    Signcrypt.openAll P (Proofs.faithfulKeyring P sks) res (.ok hb h) ⟨blks.map some, .eof⟩ =
+      .ok (sender.map P.sigPub, pt) :=
+  Proofs.sc_roundtrip_box_seal_ring P hP bs hbs sender rs eph payloadKey pt hpk hsender hblocks sks res i hi sk hmem
+    hsk h hb blks hseal hnc
+
+/-- **Box-key recipient at any position, keyring = exactly its key** (corollary
+    of `C03_roundtrip_box_ring`: `sks = [sk]`, no resolver) opens to exactly the
+    plaintext and the
     sender's signing public key (none for an anonymous sender).
     `NoIdentifierCollision` (`hnc`): the opener's derived key does not yield the
     identifier of an earlier header entry (explicit, satisfiable hypothesis). -/
@@ -25,9 +63,35 @@ theorem C03_roundtrip_box (P : Prims) (hP : P.Lawful) (bs : Nat) (hbs : 0 < bs)
         Decrypt.kidOf (h.receivers.getD j default)) :
     Signcrypt.openAll P (Proofs.faithfulKeyring P [sk]) none (.ok hb h) ⟨blks.map some, .eof⟩ =
       .ok (sender.map P.sigPub, pt) :=
-  Proofs.sc_roundtrip_box P hP bs hbs sender rs eph payloadKey pt hpk hsender hblocks i hi sk hsk h hb blks hseal hnc
+  Proofs.sc_roundtrip_box_of_ring P hP bs hbs sender rs eph payloadKey pt hpk hsender hblocks i hi sk hsk h hb blks
+    hseal hnc
 
-/-- **Symmetric-key recipients**: a resolver that resolves any non-empty subset of
+/-- **Symmetric-key recipients, keyring with any (foreign) box keys AND a
+    resolver**: the ring's box keys produce none of the header identifiers
+    (`hfor`, the explicit no-collision hypothesis); the resolver resolves any
+    non-empty subset of the identifiers, each to the true key of its entry. -/
+theorem C03_roundtrip_sym_ring (P : Prims) (hP : P.Lawful) (bs : Nat) (hbs : 0 < bs)
+    (sender : Option Bytes) (rs : List Signcrypt.Recipient) (eph payloadKey pt : Bytes)
+    (hpk : payloadKey.length = 32)
+    (hsender : ∀ s, sender = some s → ¬ ((P.sigPub s).all (· == 0)))
+    (hblocks : (chunkPlan v2 bs pt).length < 2 ^ 64 - 1)
+    (h : EncHeader) (hb : Bytes) (blks : List SigncryptBlock)
+    (hseal : Signcrypt.sealPackets P bs sender rs eph payloadKey pt = .ok (h, hb, blks))
+    (sks : List Bytes)
+    (hfor : ∀ s ∈ sks, ∀ j, j < h.receivers.length →
+      Signcrypt.keyIdentifier P (Signcrypt.derivedKeyFromBoxKeys P (P.boxPub eph) s) j ≠
+        Decrypt.kidOf (h.receivers.getD j default))
+    (f : List Bytes → Except Err (List (Option Bytes))) (keys : List (Option Bytes))
+    (hf : f (h.receivers.map Decrypt.kidOf) = .ok keys) (hlen : keys.length = rs.length)
+    (htrue : ∀ (j : Nat) (k : Bytes), keys[j]? = some (some k) → ∃ ident, rs[j]? = some (Signcrypt.Recipient.sym k ident))
+    (hsome : ∃ (j : Nat) (k : Bytes), keys[j]? = some (some k)) :
+    Signcrypt.openAll P (Proofs.faithfulKeyring P sks) (some f) (.ok hb h) ⟨blks.map some, .eof⟩ =
+      .ok (sender.map P.sigPub, pt) :=
+  Proofs.sc_roundtrip_sym_seal_ring P hP bs hbs sender rs eph payloadKey pt hpk hsender hblocks h hb blks hseal
+    sks hfor f keys hf hlen htrue hsome
+
+/-- **Symmetric-key recipients, empty keyring** (corollary of
+    `C03_roundtrip_sym_ring`): a resolver that resolves any non-empty subset of
     the identifiers, each to the true key of its entry, opens the message. -/
 theorem C03_roundtrip_sym (P : Prims) (hP : P.Lawful) (bs : Nat) (hbs : 0 < bs)
     (sender : Option Bytes) (rs : List Signcrypt.Recipient) (eph payloadKey pt : Bytes)
@@ -42,10 +106,37 @@ theorem C03_roundtrip_sym (P : Prims) (hP : P.Lawful) (bs : Nat) (hbs : 0 < bs)
     (hsome : ∃ (j : Nat) (k : Bytes), keys[j]? = some (some k)) :
     Signcrypt.openAll P (Proofs.faithfulKeyring P []) (some f) (.ok hb h) ⟨blks.map some, .eof⟩ =
       .ok (sender.map P.sigPub, pt) :=
-  Proofs.sc_roundtrip_sym P hP bs hbs sender rs eph payloadKey pt hpk hsender hblocks h hb blks hseal f keys hf hlen htrue hsome
+  C03_roundtrip_sym_ring P hP bs hbs sender rs eph payloadKey pt hpk hsender hblocks h hb blks hseal []
+    (fun s hs => by cases hs) f keys hf hlen htrue hsome
 
-/-- holders of no recipient key get `noDecryptionKey` -/
+/-- **Holders of no recipient key get `noDecryptionKey`, and nothing is
+    released**: ANY list `sks` of box secret keys none of which is a
+    recipient's — precisely: none of which produces the identifier of a header
+    entry (`hfor`; for the genuine key of a box recipient the identifier does
+    match, so this says "no recipient key, and no identifier collision") — and
+    ANY resolver that resolves no identifier (or no resolver at all).
+    (Statement strengthened: it used to cover only the empty ring and a resolver
+    answering `rs.map (fun _ => none)`, and did not state `released = []`;
+    cf. `C01_no_key`.) -/
 theorem C03_no_key (P : Prims) (bs : Nat)
+    (sender : Option Bytes) (rs : List Signcrypt.Recipient) (eph payloadKey pt : Bytes)
+    (h : EncHeader) (hb : Bytes) (blks : List SigncryptBlock)
+    (hseal : Signcrypt.sealPackets P bs sender rs eph payloadKey pt = .ok (h, hb, blks))
+    (sks : List Bytes)
+    (hfor : ∀ s ∈ sks, ∀ j, j < h.receivers.length →
+      Signcrypt.keyIdentifier P (Signcrypt.derivedKeyFromBoxKeys P (P.boxPub eph) s) j ≠
+        Decrypt.kidOf (h.receivers.getD j default))
+    (res : Signcrypt.Resolver)
+    (hres : ∀ f, res = some f → ∃ keys, f (h.receivers.map Decrypt.kidOf) = .ok keys ∧
+      keys.length = rs.length ∧ ∀ k ∈ keys, k = none) :
+    Signcrypt.openAll P (Proofs.faithfulKeyring P sks) res (.ok hb h) ⟨blks.map some, .eof⟩ =
+      .error .noDecryptionKey ∧
+    (Signcrypt.openStream P (Proofs.faithfulKeyring P sks) res (.ok hb h) ⟨blks.map some, .eof⟩).released = [] :=
+  Proofs.sc_no_key_seal_ring P bs sender rs eph payloadKey pt h hb blks hseal sks hfor res hres
+
+/-- the previous form of `C03_no_key` (empty ring, a resolver that answers
+    `none` for every identifier) is the special case -/
+theorem C03_no_key_empty_ring (P : Prims) (bs : Nat)
     (sender : Option Bytes) (rs : List Signcrypt.Recipient) (eph payloadKey pt : Bytes)
     (h : EncHeader) (hb : Bytes) (blks : List SigncryptBlock)
     (hseal : Signcrypt.sealPackets P bs sender rs eph payloadKey pt = .ok (h, hb, blks))
@@ -53,7 +144,36 @@ theorem C03_no_key (P : Prims) (bs : Nat)
     (hf : f (h.receivers.map Decrypt.kidOf) = .ok (rs.map (fun _ => none))) :
     Signcrypt.openAll P (Proofs.faithfulKeyring P []) (some f) (.ok hb h) ⟨blks.map some, .eof⟩ =
       .error .noDecryptionKey :=
-  Proofs.sc_no_key P bs sender rs eph payloadKey pt h hb blks hseal f hf
+  (C03_no_key P bs sender rs eph payloadKey pt h hb blks hseal [] (fun s hs => by cases hs) (some f)
+    (by
+      intro f' hf'
+      cases hf'
+      refine ⟨_, hf, by simp, ?_⟩
+      intro k hk
+      simp only [List.mem_map] at hk
+      obtain ⟨_, _, rfl⟩ := hk
+      rfl)).1
+
+/-- **Sealing succeeds on every legal input** (so the `hseal` hypotheses above
+    are satisfiable — the round trips are not vacuous): `SigncryptSeal`'s model
+    returns `.ok` for every recipient list that passes `checkSigncryptReceivers`
+    and every plaintext whose chunk count is below the packet-number bound; the
+    header is `Signcrypt.header`, the header bytes its encoding. -/
+theorem C03_seal_total (P : Prims) (bs : Nat) (sender : Option Bytes) (rs : List Signcrypt.Recipient)
+    (eph payloadKey pt : Bytes)
+    (hcr : Signcrypt.checkReceivers rs [] = .ok ())
+    (hblocks : (chunkPlan v2 bs pt).length < 2 ^ 64 - 1) :
+    ∃ h hb blks, Signcrypt.sealPackets P bs sender rs eph payloadKey pt = .ok (h, hb, blks) ∧
+      h = Signcrypt.header P sender eph payloadKey rs ∧ hb = Msgpack.encode h.toVal ∧
+      blks.length = (chunkPlan v2 bs pt).length ∧ h.receivers.length = rs.length :=
+  Proofs.sc_sealPackets_ok P bs sender rs eph payloadKey pt hcr hblocks
+
+/-- …and `checkSigncryptReceivers` passes for every non-empty list of at most
+    2^32 − 1 recipients with pairwise distinct identifiers -/
+theorem C03_checkReceivers_ok (rs : List Signcrypt.Recipient)
+    (hrs : rs ≠ []) (hn : rs.length ≤ 4294967295) (hd : (rs.map Signcrypt.Recipient.ident).Nodup) :
+    Signcrypt.checkReceivers rs [] = .ok () :=
+  Proofs.sc_checkReceivers_ok rs hrs hn hd
 
 /-- all-at-once = streaming read to the end, nothing unless it ended cleanly -/
 theorem C03_forms_agree (P : Prims) (kr : Keyring) (res : Signcrypt.Resolver) (hr : HeaderRead EncHeader)
@@ -67,7 +187,29 @@ theorem C03_forms_agree (P : Prims) (kr : Keyring) (res : Signcrypt.Resolver) (h
   cases err <;> simp
 
 /-- **Round trips on the emitted BYTES** (the message `SigncryptSeal` emits,
-    split as a receiver's MessagePack stream splits it) — box-key recipients … -/
+    split as a receiver's MessagePack stream splits it) — box-key recipients,
+    any keyring holding the key, with or without a resolver … -/
+theorem C03_roundtrip_box_bytes_ring (P : Prims) (hP : P.Lawful) (bs : Nat) (hbs : 0 < bs) (hbs32 : bs + 80 < 2 ^ 32)
+    (sender : Option Bytes) (rs : List Signcrypt.Recipient) (eph payloadKey pt : Bytes)
+    (hpk : payloadKey.length = 32)
+    (hsender : ∀ s, sender = some s → ¬ ((P.sigPub s).all (· == 0)))
+    (hblocks : (Encrypt.chunkPlan v2 bs pt).length < 2 ^ 64 - 1)
+    (sks : List Bytes) (res : Signcrypt.Resolver)
+    (i : Nat) (hi : i < rs.length) (sk : Bytes) (hmem : sk ∈ sks) (hsk : rs.getD i default = .box (P.boxPub sk))
+    (hnc : ∀ s ∈ sks, ∀ j, j ≤ i → j < rs.length →
+      Signcrypt.keyIdentifier P (Signcrypt.derivedKeyFromBoxKeys P (P.boxPub eph) s) j =
+        Decrypt.kidOf ((Signcrypt.header P sender eph payloadKey rs).receivers.getD j default) →
+      rs.getD j default = .box (P.boxPub s))
+    (L : Nat) (hL32 : 32 ≤ L)
+    (hid : ∀ key ident, Signcrypt.Recipient.sym key ident ∈ rs → ident.length ≤ L)
+    (hsmall : 145 + rs.length * (L + 63) < 2 ^ 32)
+    (msg : Bytes) (hmsg : Signcrypt.sealWith P bs sender rs eph payloadKey pt = .ok msg) :
+    ∃ hr ps, Wire.splitSigncrypt msg = .ok (hr, ps) ∧
+      Signcrypt.openAll P (Proofs.faithfulKeyring P sks) res hr ps = .ok (sender.map P.sigPub, pt) :=
+  Proofs.sc_roundtrip_box_bytes_ring P hP bs hbs hbs32 sender rs eph payloadKey pt hpk hsender hblocks sks res i hi sk
+    hmem hsk hnc L hL32 hid hsmall msg hmsg
+
+/-- … keyring = exactly the recipient's key (corollary) … -/
 theorem C03_roundtrip_box_bytes (P : Prims) (hP : P.Lawful) (bs : Nat) (hbs : 0 < bs) (hbs32 : bs + 80 < 2 ^ 32)
     (sender : Option Bytes) (rs : List Signcrypt.Recipient) (eph payloadKey pt : Bytes)
     (hpk : payloadKey.length = 32)
@@ -82,10 +224,34 @@ theorem C03_roundtrip_box_bytes (P : Prims) (hP : P.Lawful) (bs : Nat) (hbs : 0 
     (msg : Bytes) (hmsg : Signcrypt.sealWith P bs sender rs eph payloadKey pt = .ok msg) :
     ∃ hr ps, Wire.splitSigncrypt msg = .ok (hr, ps) ∧
       Signcrypt.openAll P (Proofs.faithfulKeyring P [sk]) none hr ps = .ok (sender.map P.sigPub, pt) :=
-  Proofs.sc_roundtrip_box_bytes P hP bs hbs hbs32 sender rs eph payloadKey pt hpk hsender hblocks i hi sk hsk hnc
-    L hL32 hid hsmall msg hmsg
+  Proofs.sc_roundtrip_box_bytes_ring P hP bs hbs hbs32 sender rs eph payloadKey pt hpk hsender hblocks [sk] none i hi sk
+    (by simp) hsk (Proofs.ScRingNoCollision.single hsk hnc) L hL32 hid hsmall msg hmsg
 
-/-- … and symmetric-key recipients -/
+/-- … symmetric-key recipients, keyring of foreign box keys and a resolver … -/
+theorem C03_roundtrip_sym_bytes_ring (P : Prims) (hP : P.Lawful) (bs : Nat) (hbs : 0 < bs) (hbs32 : bs + 80 < 2 ^ 32)
+    (sender : Option Bytes) (rs : List Signcrypt.Recipient) (eph payloadKey pt : Bytes)
+    (hpk : payloadKey.length = 32)
+    (hsender : ∀ s, sender = some s → ¬ ((P.sigPub s).all (· == 0)))
+    (hblocks : (Encrypt.chunkPlan v2 bs pt).length < 2 ^ 64 - 1)
+    (sks : List Bytes)
+    (hfor : ∀ s ∈ sks, ∀ j, j < (Signcrypt.header P sender eph payloadKey rs).receivers.length →
+      Signcrypt.keyIdentifier P (Signcrypt.derivedKeyFromBoxKeys P (P.boxPub eph) s) j ≠
+        Decrypt.kidOf ((Signcrypt.header P sender eph payloadKey rs).receivers.getD j default))
+    (f : List Bytes → Except Err (List (Option Bytes))) (keys : List (Option Bytes))
+    (hf : f ((Signcrypt.header P sender eph payloadKey rs).receivers.map Decrypt.kidOf) = .ok keys)
+    (hlen : keys.length = rs.length)
+    (htrue : ∀ (j : Nat) (k : Bytes), keys[j]? = some (some k) → ∃ ident, rs[j]? = some (Signcrypt.Recipient.sym k ident))
+    (hsome : ∃ (j : Nat) (k : Bytes), keys[j]? = some (some k))
+    (L : Nat) (hL32 : 32 ≤ L)
+    (hid : ∀ key ident, Signcrypt.Recipient.sym key ident ∈ rs → ident.length ≤ L)
+    (hsmall : 145 + rs.length * (L + 63) < 2 ^ 32)
+    (msg : Bytes) (hmsg : Signcrypt.sealWith P bs sender rs eph payloadKey pt = .ok msg) :
+    ∃ hr ps, Wire.splitSigncrypt msg = .ok (hr, ps) ∧
+      Signcrypt.openAll P (Proofs.faithfulKeyring P sks) (some f) hr ps = .ok (sender.map P.sigPub, pt) :=
+  Proofs.sc_roundtrip_sym_bytes_ring P hP bs hbs hbs32 sender rs eph payloadKey pt hpk hsender hblocks sks hfor f keys
+    hf hlen htrue hsome L hL32 hid hsmall msg hmsg
+
+/-- … and symmetric-key recipients, empty keyring (corollary) -/
 theorem C03_roundtrip_sym_bytes (P : Prims) (hP : P.Lawful) (bs : Nat) (hbs : 0 < bs) (hbs32 : bs + 80 < 2 ^ 32)
     (sender : Option Bytes) (rs : List Signcrypt.Recipient) (eph payloadKey pt : Bytes)
     (hpk : payloadKey.length = 32)
@@ -102,10 +268,104 @@ theorem C03_roundtrip_sym_bytes (P : Prims) (hP : P.Lawful) (bs : Nat) (hbs : 0 
     (msg : Bytes) (hmsg : Signcrypt.sealWith P bs sender rs eph payloadKey pt = .ok msg) :
     ∃ hr ps, Wire.splitSigncrypt msg = .ok (hr, ps) ∧
       Signcrypt.openAll P (Proofs.faithfulKeyring P []) (some f) hr ps = .ok (sender.map P.sigPub, pt) :=
-  Proofs.sc_roundtrip_sym_bytes P hP bs hbs hbs32 sender rs eph payloadKey pt hpk hsender hblocks f keys hf hlen htrue hsome
-    L hL32 hid hsmall msg hmsg
+  C03_roundtrip_sym_bytes_ring P hP bs hbs hbs32 sender rs eph payloadKey pt hpk hsender hblocks []
+    (fun s hs => by cases hs) f keys hf hlen htrue hsome L hL32 hid hsmall msg hmsg
 
 /-! ## non-vacuity -/
 example : Toy.prims.Lawful := Toy.lawful
+
+/-! The toy primitives are deliberately degenerate: their HMAC output starts
+  with the key, so the 32-byte identifiers of ALL box-key recipients coincide
+  (the first 32 bytes of the context string).  `ScRingNoCollision` / `hfor` are
+  therefore satisfiable, for the toy primitives, only by rings whose keys meet no
+  foreign box-key entry — the examples below are chosen accordingly (real HMAC
+  output has no such collisions; the hypotheses say exactly this). -/
+
+/-- toy recipients: a symmetric-key recipient, then two box-key recipients -/
+def toyRs : List Signcrypt.Recipient :=
+  [.sym (zeros 32) [5, 5], .box (Toy.prims.boxPub [4]), .box (Toy.prims.boxPub [3])]
+
+/-- toy recipients: two symmetric-key recipients -/
+def toySyms : List Signcrypt.Recipient := [.sym (zeros 32) [5, 5], .sym (Toy.pad 32 [1]) [6, 6]]
+
+/-- `C03_seal_total`, concretely: `checkSigncryptReceivers` passes for the toy
+    recipients and sealing a 5-byte plaintext in blocks of 4 succeeds -/
+example : ∃ h hb blks,
+    Signcrypt.sealPackets Toy.prims 4 (some [1]) toyRs [2] (Toy.pad 32 [9]) [1, 2, 3, 4, 5] = .ok (h, hb, blks) ∧
+    blks.length = 2 ∧ h.receivers.length = 3 := by
+  obtain ⟨h, hb, blks, hs, _, _, hl, hr⟩ := C03_seal_total Toy.prims 4 (some [1]) toyRs [2] (Toy.pad 32 [9])
+    [1, 2, 3, 4, 5] (C03_checkReceivers_ok toyRs (by decide) (by decide) (by decide)) (by decide)
+  exact ⟨h, hb, blks, hs, by rw [hl]; decide, hr⟩
+
+/-- **`C03_roundtrip_box_ring` instantiated**: the box key `[4]` of the recipient
+    at position 1 (after a symmetric-key entry), accompanied by a resolver
+    (which is never consulted: here it would fail) -/
+example : ∃ h hb blks,
+    Signcrypt.sealPackets Toy.prims 4 (some [1]) toyRs [2] (Toy.pad 32 [9]) [1, 2, 3, 4, 5] = .ok (h, hb, blks) ∧
+    Signcrypt.openAll Toy.prims (Proofs.faithfulKeyring Toy.prims [[4]]) (some (fun _ => .error .ioError))
+        (.ok hb h) ⟨blks.map some, .eof⟩ = .ok (some (Toy.prims.sigPub [1]), [1, 2, 3, 4, 5]) := by
+  obtain ⟨h, hb, blks, hs, hh, _, _, _⟩ := C03_seal_total Toy.prims 4 (some [1]) toyRs [2] (Toy.pad 32 [9])
+    [1, 2, 3, 4, 5] (C03_checkReceivers_ok toyRs (by decide) (by decide) (by decide)) (by decide)
+  refine ⟨h, hb, blks, hs, ?_⟩
+  refine C03_roundtrip_box_ring Toy.prims Toy.lawful 4 (by decide) (some [1]) toyRs [2] (Toy.pad 32 [9])
+    [1, 2, 3, 4, 5] (by decide) (by intro s hs; cases hs; decide) (by decide) [[4]] _ 1 (by decide) [4]
+    (by decide) (by decide) h hb blks hs ?_
+  subst hh
+  intro s hs j hj _ hid
+  have hs' : s = [4] := by simpa using hs
+  have hj' : j = 0 ∨ j = 1 := by omega
+  subst hs'
+  rcases hj' with rfl | rfl
+  · exact absurd hid (by decide)
+  · rfl
+
+/-- **`C03_roundtrip_sym_ring` instantiated**: a ring with a foreign box key and a
+    resolver that knows the second symmetric key only -/
+example : ∃ h hb blks,
+    Signcrypt.sealPackets Toy.prims 4 none toySyms [2] (Toy.pad 32 [9]) [1, 2, 3, 4, 5] = .ok (h, hb, blks) ∧
+    Signcrypt.openAll Toy.prims (Proofs.faithfulKeyring Toy.prims [[7]])
+        (some (fun _ => .ok [none, some (Toy.pad 32 [1])])) (.ok hb h) ⟨blks.map some, .eof⟩ =
+      .ok (none, [1, 2, 3, 4, 5]) := by
+  obtain ⟨h, hb, blks, hs, hh, _, _, _⟩ := C03_seal_total Toy.prims 4 none toySyms [2] (Toy.pad 32 [9])
+    [1, 2, 3, 4, 5] (C03_checkReceivers_ok toySyms (by decide) (by decide) (by decide)) (by decide)
+  refine ⟨h, hb, blks, hs, ?_⟩
+  refine C03_roundtrip_sym_ring Toy.prims Toy.lawful 4 (by decide) none toySyms [2] (Toy.pad 32 [9])
+    [1, 2, 3, 4, 5] (by decide) (by intro s hs; cases hs) (by decide) h hb blks hs [[7]] ?_ _
+    [none, some (Toy.pad 32 [1])] rfl rfl ?_ ⟨1, Toy.pad 32 [1], rfl⟩
+  · subst hh
+    intro s hs j hj
+    have hs' : s = [7] := by simpa using hs
+    have hj' : j = 0 ∨ j = 1 := by
+      have : j < 2 := hj
+      omega
+    subst hs'
+    rcases hj' with rfl | rfl <;> decide
+  · intro j k hk
+    match j with
+    | 0 => simp at hk
+    | 1 =>
+      simp only [List.getElem?_cons_succ, List.getElem?_cons_zero, Option.some.injEq] at hk
+      subst hk
+      exact ⟨[6, 6], rfl⟩
+    | j + 2 => simp at hk
+
+/-- **`C03_no_key` instantiated**: a ring of two foreign box keys and no
+    resolver gets `noDecryptionKey` and no plaintext -/
+example : ∃ h hb blks,
+    Signcrypt.sealPackets Toy.prims 4 none toySyms [2] (Toy.pad 32 [9]) [1, 2, 3, 4, 5] = .ok (h, hb, blks) ∧
+    Signcrypt.openAll Toy.prims (Proofs.faithfulKeyring Toy.prims [[7], [8]]) none (.ok hb h) ⟨blks.map some, .eof⟩ =
+      .error .noDecryptionKey := by
+  obtain ⟨h, hb, blks, hs, hh, _, _, _⟩ := C03_seal_total Toy.prims 4 none toySyms [2] (Toy.pad 32 [9])
+    [1, 2, 3, 4, 5] (C03_checkReceivers_ok toySyms (by decide) (by decide) (by decide)) (by decide)
+  refine ⟨h, hb, blks, hs, ?_⟩
+  refine (C03_no_key Toy.prims 4 none toySyms [2] (Toy.pad 32 [9]) [1, 2, 3, 4, 5] h hb blks hs [[7], [8]] ?_ none
+    (by intro f hf; cases hf)).1
+  subst hh
+  intro s hs j hj
+  have hs' : s = [7] ∨ s = [8] := by simpa using hs
+  have hj' : j = 0 ∨ j = 1 := by
+    have : j < 2 := hj
+    omega
+  rcases hs' with rfl | rfl <;> rcases hj' with rfl | rfl <;> decide
 
 end Saltpack.Props.C03
